@@ -108,6 +108,29 @@ def seg_case(task):
                 pe["r"] = "other:" + type(exc).__name__
         pe["warned"] = any(issubclass(w.category, PrepareDumpWarning) for w in wl)
         events.append(pe)
+        if allow and len(spec) >= 2:
+            # the same object once more after an in-place edit of its basis (two shells swapped): the result is a function of
+            # the basis as it is now, not of what was prepared before
+            data.obasis.shells[0], data.obasis.shells[1] = data.obasis.shells[1], data.obasis.shells[0]
+            ab = abstract_basis(spec)
+            ab[0], ab[1] = ab[1], ab[0]
+            pe2 = {"op": "PrepSeg", "b": ab, "keep": bool(keep), "allow": True, "out": [], "rest_same": True, "spec": [list(x) for x in spec],
+                   "history": "after-inplace-edit"}
+            dbefore = digest(data)
+            with warnings.catch_warnings(record=True) as wl:
+                warnings.simplefilter("always")
+                try:
+                    res = prepare_segmented(data, keep, True, "file.x", "FMT")
+                    pe2["r"] = "same" if res is data else "new"
+                    pe2["out"] = project_basis(res.obasis, spec)
+                    if res is not data:
+                        pe2["rest_same"] = bool(res.obasis is not data.obasis and res.atcoords is data.atcoords and digest(data) == dbefore)
+                except PrepareDumpError:
+                    pe2["r"] = "PrepareDumpError"
+                except Exception as exc:  # noqa: BLE001
+                    pe2["r"] = "other:" + type(exc).__name__
+            pe2["warned"] = any(issubclass(w.category, PrepareDumpWarning) for w in wl)
+            events.append(pe2)
     return events
 
 
